@@ -66,7 +66,7 @@ async fn catalogue(index_manager: &Addr<RaftIndexManager>) -> String {
 async fn run_op(store: &FileStore, log_manager: &Addr<RaftLogManager>, index_manager: &Addr<RaftIndexManager>, l: &str) -> String {
     let r = run_op_inner(store, log_manager, index_manager, l).await;
     let first = l.split_whitespace().next().unwrap_or("");
-    if WITH_CAT.load(std::sync::atomic::Ordering::Relaxed) && matches!(first, "a" | "b" | "del" | "compact") {
+    if WITH_CAT.load(std::sync::atomic::Ordering::Relaxed) && matches!(first, "a" | "b" | "del" | "compact" | "inst") {
         // a round trip through the log manager first: its catalogue writes are queued before its answer
         let _ = store.get_last_log_index().await;
         format!("{} cat={}", r, catalogue(index_manager).await)
@@ -121,6 +121,25 @@ async fn run_op_inner(store: &FileStore, log_manager: &Addr<RaftLogManager>, ind
                     }
                     _ => "err".to_string(),
                 },
+                Err(_) => "err".to_string(),
+            }
+        }
+        // the log part of a snapshot installation, the two requests `FileStore::finalize_snapshot_installation` sends to the
+        // log manager, in its order (the function itself is driven by the `apply` harness: it needs a snapshot file)
+        ["inst", i, t] => {
+            let e: Entry<ClientRequest> = Entry::new_snapshot_pointer(n(i), n(t), "1".to_string(), MembershipConfig::new_initial(1));
+            match StoreUtils::entry_to_record(&e) {
+                Ok(r) => {
+                    let a = log_manager.send(RaftLogManagerRequest::SplitOff(u64::MAX)).await;
+                    let b = log_manager.send(RaftLogManagerRequest::InstallSnapshotPointerLog(r)).await;
+                    match (a, b) {
+                        (Ok(Ok(_)), Ok(Ok(_))) => {
+                            let _ = store.get_log_entries(n(i), n(i) + 1).await;
+                            "ok".to_string()
+                        }
+                        _ => "err".to_string(),
+                    }
+                }
                 Err(_) => "err".to_string(),
             }
         }
